@@ -69,6 +69,7 @@ ValueHazards(fmt, v) ==
   ELSE IF v.k = "dict" THEN UNION {ValueHazards(fmt, v.v[n][1]) \cup ValueHazards(fmt, v.v[n][2]) : n \in 1..Len(v.v)}
   ELSE IF v.k = "ns" THEN UNION {ValueHazards(fmt, v.v[n][2]) : n \in 1..Len(v.v)}
   ELSE IF v.k = "str" THEN {IF fmt = "yaml" THEN Deviation(v.v) ELSE JsonStrDeviation(v.v)} \ {"none"}
+  ELSE IF v.k = "reg" THEN {IF fmt = "yaml" THEN Deviation(RegText(v)) ELSE JsonStrDeviation(RegText(v))} \ {"none"}
   ELSE IF v.k = "float" /\ fmt # "yaml" THEN {JsonDeviation(v.v)} \ {"none"}
   ELSE {}
 
